@@ -8,7 +8,7 @@ import tempfile
 from decimal import Decimal
 
 from engine import SPEC, gen_states, pool_map
-from readers import eol_for, run_cli, write_text
+from readers import join_lines, run_cli, write_text
 
 POOL = json.load(open(os.path.join(SPEC, "data", "stat_pool.json")))
 DENS = [1, 2, 4, 5, 8, 10, 16, 20, 25, 40, 50, 80, 100, 125, 200, 250, 400, 500]
@@ -42,15 +42,25 @@ def parse_report(txt):
     for k, p in (("del", "deletion"), ("ins", "insertion"), ("sub", "substitution"), ("mat", "match")):
         m = re.search(r"Total %s regions: (\d+) \((\d+) >50bps\)" % p, txt)
         o[k] = int(m.group(1)) if m else -1
+    # the report is exactly ONE report: every figure once, and nothing that is not part of it
+    o["n_reports"] = len(re.findall(r"^Total alignments:", txt, re.M))
+    known = re.compile(r"^(Total alignments:|\tPrimary:|\tSecondary:|Reads with at least one alignment:|Total aligned bases:|Average mapping quality:|"
+                       r"Average highest sequence identity:|Average highest map ratio:|Cigar string statistics:|\tTotal (deletion|insertion|substitution|match) regions:|"
+                       r"Total perfect alignments \(exact match\):|\* Numbers are based on)")
+    o["foreign_lines"] = sum(1 for l in txt.splitlines() if l.strip() and not known.match(l))
+    o["has_cigar_section"] = "Cigar string statistics:" in txt
     return o
 
 
 def run_case(job):
     cid, recs, cigar, storage = job
+    import readers as _rd
+
+    _rd.CASE = str(cid)
     d = tempfile.mkdtemp(prefix="stat_")
     try:
         gaf = os.path.join(d, "a.gaf" + (".gz" if storage == "bgzf" else ""))
-        write_text(gaf, "\n".join(gaf_line(r, k) for k, r in enumerate(recs)) + eol_for(cid), storage, block=200)
+        write_text(gaf, join_lines([gaf_line(r, k) for k, r in enumerate(recs)], cid), storage, block=200)
         out = os.path.join(d, "report.txt")
         r = run_cli(["stat", gaf, "-o", out] + (["--cigar"] if cigar else []))
         txt = open(out).read() if os.path.exists(out) else ""
